@@ -7,6 +7,10 @@ def check(ctx):
     core4.connect_component(ctx, "C13")
     core4.simultaneous_relations(ctx, "C13")
     core4.merged_transactions(ctx, "C13")
+    # which members of a simultaneous group are enabled by their ready dependencies is decided from this set
+    from . import core5
+
+    core5.conditionally_called(ctx, "C13")
 
 
 C = core4.CONNECTORS
